@@ -257,6 +257,8 @@ class Shell:
                     vm.pc = rhs
                 else:
                     print("Eval error: cannot assign to symbol.")
+            elif isinstance(ltree, IntNode):
+                print("Eval error: cannot assign to integer literal.")
             elif isinstance(ltree, (InfixNode, PrefixNode)):
                 print("Eval error: cannot assign to arithmetic expression.")
             else:
@@ -491,8 +493,12 @@ class Shell:
 
         vm = self.debugger.vm
         opc = vm.pc
-        for op in program.code:
-            op.execute(vm)
+        try:
+            for op in program.code:
+                op.execute(vm)
+        except SystemExit:
+            # A failing __eval has already reported its error; stay in the debugger.
+            pass
         vm.pc = opc
 
     @mutates
